@@ -99,9 +99,9 @@ CLAIMS["C08"] = {
     "technique": T,
 }
 CLAIMS["C09"] = {
-    "text": "Gotoh's three-state optimum in Align.tla is model-checked against brute-force enumeration of all alignments, global and over all substring pairs, up to length 3/4. With open = 0 the code's transcription equals it, and Levenshtein gives minus the edit distance. Recorded real calls with zero gap-open (seeded, all six shipped matrices, Levenshtein) must score exactly Opt/LocalOpt computed by the spec; swapped arguments on symmetric matrices give equal scores; all 6x576 shipped entries and all 65 536 Levenshtein entries are read from the package variables and checked by CompleteOver/Symmetric/ZeroOpen/IsLevenshtein; protein pairs never panic.",
+    "text": "Gotoh's three-state optimum in Align.tla is model-checked against brute-force enumeration of all alignments, global and over all substring pairs, up to length 3/4. With open = 0 the code's transcription equals it, and Levenshtein gives minus the edit distance. Recorded real calls with zero gap-open (seeded, all six shipped matrices, Levenshtein) must score exactly Opt/LocalOpt computed by the spec; swapped arguments on symmetric matrices give equal scores; all 6x576 shipped entries and all 65 536 Levenshtein entries are read from the package variables and checked by CompleteOver/Symmetric/ZeroOpen/IsLevenshtein; protein pairs never panic. The statement puts no sign condition on gap scores: MC_Align_C09_pos checks the same for per-character gap scores in {-1, 0, 1, 2} (Gotoh = brute force, the code's recurrence optimal for Global and Local), and the driver records Local on its any-gap tables, complete 256 x 256 matrices other than Levenshtein, matrices in other units (x 1000003, x 2^-40, x 2^20), sequences holding every byte value 0..254, and flank pairs up to 2 100 + core judged by a written-down witness alignment.",
     "ref": "DESIGN.md section 6 C09",
-    "note": "The alphabet of the shipped matrices is taken as the 23 letters ARNDCQEGHILKMFPSTWYVBZX plus Gap. Optimality beyond the model's scope rests on the spec's Gotoh.",
+    "note": "The alphabet of the shipped matrices is taken as the 23 letters ARNDCQEGHILKMFPSTWYVBZX plus Gap. Optimality beyond the model's scope rests on the spec's Gotoh. Byte 255 inside a sequence is outside the domain (it is the gap symbol; Levenshtein itself conflates the two).",
     "technique": T,
 }
 CLAIMS["C10"] = {
